@@ -231,6 +231,8 @@ def run(c, chk):
     r_oct = dfa.match('dq_str', b'\\7')[0]
     for ap in lex.actions.get(r_oct, []):
         if lexmodel.classify_path(ap) == 'error':
+            if not any(x[1] in ('sscanf', '__isoc99_sscanf', 'strtoul', 'strtol') for x in ap.of('call')):
+                continue          # refused for its shape before any value was scanned (a rule shared with the malformed escapes)
             g = [a for a in ap.path.assume if a[0][0] == 'icmp']
             okg = False
             if g:
@@ -440,7 +442,7 @@ def subst_action_ok(lex, r, scname):
         sc = [x for x in ap.of('call') if x[1] == 'strchr']
         byhand = any(cn[0] == 'icmp' and cn[1] in ('eq', 'ne') and ('c', ord(':')) in (cn[2], cn[3]) and sym.mentions(cn, lambda x: x == ('g', '@cfg_yytext'))
                      for cn, t, _ in ap.path.assume)       # a hand-written scan of the text for the colon
-        if (sc and sc[0][2][1] == ('c', ord(':'))) or byhand:
+        if any(x[2][1] == ('c', ord(':')) for x in sc) or byhand:
             searched = True
         if byhand and not sc:
             handscan = True
